@@ -88,11 +88,57 @@ def refresh_links(name):
         shutil.copy(lock_src, lock_dst)
 
 
+def _sync_deps(name):
+    """A tree whose crate declares a dependency the harness crate does not know yet (the sources are compiled through
+    symlinks, the manifest is the harness's own) still has to build: missing dependencies are appended to the harness
+    manifest with the version / features / path the tree states.  Nothing happens for the tree as found."""
+    import tomllib
+    sub, _ = CRATES[name]
+    repo_crate = os.path.join(util.REPO, sub)
+    try:
+        rt = tomllib.load(open(os.path.join(repo_crate, "Cargo.toml"), "rb"))
+        hp = os.path.join(crate_dir(name), "Cargo.toml")
+        ht = tomllib.load(open(hp, "rb"))
+    except (OSError, tomllib.TOMLDecodeError) as e:
+        raise util.ToolError("cannot read a Cargo manifest: %s" % e)
+    want = dict(rt.get("dependencies", {}))
+    for cfg, tbl in (rt.get("target") or {}).items():
+        if "windows" in cfg and "not(windows)" not in cfg:
+            continue
+        want.update(tbl.get("dependencies", {}))
+    have = set(ht.get("dependencies", {}))
+    add = []
+    for dep, spec in want.items():
+        if dep in have:
+            continue
+        if isinstance(spec, str):
+            spec = {"version": spec}
+        lines = ["", "[dependencies.%s]" % dep]
+        for k, v in spec.items():
+            if k == "path":
+                v = os.path.normpath(os.path.join(repo_crate, v))
+            if isinstance(v, bool):
+                lines.append("%s = %s" % (k, "true" if v else "false"))
+            elif isinstance(v, list):
+                lines.append("%s = [%s]" % (k, ", ".join('"%s"' % x for x in v)))
+            else:
+                lines.append('%s = "%s"' % (k, v))
+        add += lines
+    if add:
+        with open(hp, "a") as f:
+            f.write("\n# dependencies declared by the tree under check and unknown to the harness manifest\n" + "\n".join(add) + "\n")
+        lock = os.path.join(crate_dir(name), "Cargo.lock")
+        if os.path.exists(lock):
+            os.unlink(lock)                  # resolved again from the tree's lock file (copied by refresh_links)
+        util.log("harness/%s: added dependencies %s from the tree's manifest" % (name, [l[14:-1] for l in add if l.startswith("[dependencies.")]))
+
+
 def cargo_build(name, *, release=True, bins=None, timeout=1800):
     """Returns the directory holding the built binaries."""
     if _alt():
         _sync_alt(name)
     if name in CRATES:
+        _sync_deps(name)
         refresh_links(name)
     cdir = crate_dir(name)
     cmd = ["cargo", "build", "--offline", "--quiet"]
